@@ -556,6 +556,29 @@ func GenSession(prop string, seed uint64, thorough bool) *Scenario {
 			sc.Reent = append(sc.Reent, ReentSpec{Event: g.picks("message", "packet", "packetCreate", "flush", "drain", "heartbeat", "upgrade", "upgrading", "close", "callback"), Call: g.picks("send", "send", "close", "close-discard"), Nth: g.rng(1, 3)})
 		}
 	}
+	// C12/C03: a graceful close whose client never comes back - the 30 s close timeout has to end the session,
+	// with the application's reason.  Needs a horizon beyond those 30 s and a heartbeat that does not fire first.
+	if (prop == "C12" || prop == "C03") && !sc.FaultFree && g.p(0.08) {
+		c := &sc.Clients[0]
+		if c.Transport == "polling" && c.Upgrade == "" && len(c.Cand) == 0 && len(c.Raw) == 0 {
+			o.PingIntervalMs, o.PingTimeoutMs = 0, 0 // defaults: 25 s + 20 s
+			for ci := range sc.Clients {
+				sc.Clients[ci].V3PingMs = 0
+				sc.Clients[ci].PongDelayMs = nil
+			}
+			c.Faults, c.CloseAtMs, c.AbortHS = nil, 0, false
+			c.StopAtMs = g.rng(100, 600)
+			closeAt := c.StartMs + c.StopAtMs + 6*c.LatencyMs + g.pick(50, 200, 1000)
+			var app []AppOp
+			for _, op := range sc.App {
+				if op.Sess != c.Name || (op.Op == "send" && op.AtMs < closeAt-20) {
+					app = append(app, op)
+				}
+			}
+			sc.App = append(app, AppOp{AtMs: closeAt, Task: "closer-" + c.Name, Op: "close", Sess: c.Name})
+			sc.HorizonMs = closeAt + 30000 + g.pick(500, 2000)
+		}
+	}
 	// C07: an application 'heartbeat' listener that takes time must not disturb the heartbeat itself (the
 	// timers are dealt with before the event is emitted)
 	if prop == "C07" && g.p(0.25) {
